@@ -208,7 +208,10 @@ package transform
 
 //@ -- the inverse walk: x collects the even bits of the key, y the odd bits.
 //@ -- qbits(q, s, z): the number whose bit j is bit s+2j of q, for positions below 2z (generated).
-//@ define qbits(q, s, z) = ite(s + 0 < 2 * z, fmod(fdiv(q, pow2(s + 0)), 2) * pow2(0), 0) + ite(s + 2 < 2 * z, fmod(fdiv(q, pow2(s + 2)), 2) * pow2(1), 0) + ite(s + 4 < 2 * z, fmod(fdiv(q, pow2(s + 4)), 2) * pow2(2), 0) + ite(s + 6 < 2 * z, fmod(fdiv(q, pow2(s + 6)), 2) * pow2(3), 0) + ite(s + 8 < 2 * z, fmod(fdiv(q, pow2(s + 8)), 2) * pow2(4), 0) + ite(s + 10 < 2 * z, fmod(fdiv(q, pow2(s + 10)), 2) * pow2(5), 0) + ite(s + 12 < 2 * z, fmod(fdiv(q, pow2(s + 12)), 2) * pow2(6), 0) + ite(s + 14 < 2 * z, fmod(fdiv(q, pow2(s + 14)), 2) * pow2(7), 0) + ite(s + 16 < 2 * z, fmod(fdiv(q, pow2(s + 16)), 2) * pow2(8), 0) + ite(s + 18 < 2 * z, fmod(fdiv(q, pow2(s + 18)), 2) * pow2(9), 0) + ite(s + 20 < 2 * z, fmod(fdiv(q, pow2(s + 20)), 2) * pow2(10), 0) + ite(s + 22 < 2 * z, fmod(fdiv(q, pow2(s + 22)), 2) * pow2(11), 0) + ite(s + 24 < 2 * z, fmod(fdiv(q, pow2(s + 24)), 2) * pow2(12), 0) + ite(s + 26 < 2 * z, fmod(fdiv(q, pow2(s + 26)), 2) * pow2(13), 0) + ite(s + 28 < 2 * z, fmod(fdiv(q, pow2(s + 28)), 2) * pow2(14), 0) + ite(s + 30 < 2 * z, fmod(fdiv(q, pow2(s + 30)), 2) * pow2(15), 0) + ite(s + 32 < 2 * z, fmod(fdiv(q, pow2(s + 32)), 2) * pow2(16), 0) + ite(s + 34 < 2 * z, fmod(fdiv(q, pow2(s + 34)), 2) * pow2(17), 0) + ite(s + 36 < 2 * z, fmod(fdiv(q, pow2(s + 36)), 2) * pow2(18), 0) + ite(s + 38 < 2 * z, fmod(fdiv(q, pow2(s + 38)), 2) * pow2(19), 0) + ite(s + 40 < 2 * z, fmod(fdiv(q, pow2(s + 40)), 2) * pow2(20), 0) + ite(s + 42 < 2 * z, fmod(fdiv(q, pow2(s + 42)), 2) * pow2(21), 0) + ite(s + 44 < 2 * z, fmod(fdiv(q, pow2(s + 44)), 2) * pow2(22), 0) + ite(s + 46 < 2 * z, fmod(fdiv(q, pow2(s + 46)), 2) * pow2(23), 0) + ite(s + 48 < 2 * z, fmod(fdiv(q, pow2(s + 48)), 2) * pow2(24), 0) + ite(s + 50 < 2 * z, fmod(fdiv(q, pow2(s + 50)), 2) * pow2(25), 0) + ite(s + 52 < 2 * z, fmod(fdiv(q, pow2(s + 52)), 2) * pow2(26), 0) + ite(s + 54 < 2 * z, fmod(fdiv(q, pow2(s + 54)), 2) * pow2(27), 0) + ite(s + 56 < 2 * z, fmod(fdiv(q, pow2(s + 56)), 2) * pow2(28), 0) + ite(s + 58 < 2 * z, fmod(fdiv(q, pow2(s + 58)), 2) * pow2(29), 0) + ite(s + 60 < 2 * z, fmod(fdiv(q, pow2(s + 60)), 2) * pow2(30), 0)
+//@ -- qbit(q, k): bit k of q.  Opaque in the decoder proof (the loop steps are then linear facts over the symbols);
+//@ -- its arithmetic meaning enters through the two lemmas below, instantiated for the quadkey.
+//@ defineopaqueint qbit(q, k) = fmod(fdiv(q, pow2(k)), 2)
+//@ define qbits(q, s, z) = ite(s + 0 < 2 * z, qbit(q, s + 0) * pow2(0), 0) + ite(s + 2 < 2 * z, qbit(q, s + 2) * pow2(1), 0) + ite(s + 4 < 2 * z, qbit(q, s + 4) * pow2(2), 0) + ite(s + 6 < 2 * z, qbit(q, s + 6) * pow2(3), 0) + ite(s + 8 < 2 * z, qbit(q, s + 8) * pow2(4), 0) + ite(s + 10 < 2 * z, qbit(q, s + 10) * pow2(5), 0) + ite(s + 12 < 2 * z, qbit(q, s + 12) * pow2(6), 0) + ite(s + 14 < 2 * z, qbit(q, s + 14) * pow2(7), 0) + ite(s + 16 < 2 * z, qbit(q, s + 16) * pow2(8), 0) + ite(s + 18 < 2 * z, qbit(q, s + 18) * pow2(9), 0) + ite(s + 20 < 2 * z, qbit(q, s + 20) * pow2(10), 0) + ite(s + 22 < 2 * z, qbit(q, s + 22) * pow2(11), 0) + ite(s + 24 < 2 * z, qbit(q, s + 24) * pow2(12), 0) + ite(s + 26 < 2 * z, qbit(q, s + 26) * pow2(13), 0) + ite(s + 28 < 2 * z, qbit(q, s + 28) * pow2(14), 0) + ite(s + 30 < 2 * z, qbit(q, s + 30) * pow2(15), 0) + ite(s + 32 < 2 * z, qbit(q, s + 32) * pow2(16), 0) + ite(s + 34 < 2 * z, qbit(q, s + 34) * pow2(17), 0) + ite(s + 36 < 2 * z, qbit(q, s + 36) * pow2(18), 0) + ite(s + 38 < 2 * z, qbit(q, s + 38) * pow2(19), 0) + ite(s + 40 < 2 * z, qbit(q, s + 40) * pow2(20), 0) + ite(s + 42 < 2 * z, qbit(q, s + 42) * pow2(21), 0) + ite(s + 44 < 2 * z, qbit(q, s + 44) * pow2(22), 0) + ite(s + 46 < 2 * z, qbit(q, s + 46) * pow2(23), 0) + ite(s + 48 < 2 * z, qbit(q, s + 48) * pow2(24), 0) + ite(s + 50 < 2 * z, qbit(q, s + 50) * pow2(25), 0) + ite(s + 52 < 2 * z, qbit(q, s + 52) * pow2(26), 0) + ite(s + 54 < 2 * z, qbit(q, s + 54) * pow2(27), 0) + ite(s + 56 < 2 * z, qbit(q, s + 56) * pow2(28), 0) + ite(s + 58 < 2 * z, qbit(q, s + 58) * pow2(29), 0) + ite(s + 60 < 2 * z, qbit(q, s + 60) * pow2(30), 0)
 
 //@ func convertQuadkeyToHorizontalID
 //@   props C11 C15
@@ -217,12 +220,33 @@ package transform
 //@ end
 //@ -- zoom, digit count and loop index are case-split ($idx is the range index, -1 before the first digit);
 //@ -- a key below 4^zoom has at most zoom digits
+//@ lemma C11_base4_digit_is_two_bits
+//@   props C11
+//@   reveal qbit
+//@   var q int
+//@   var m int
+//@   split m 0..30
+//@   assume 0 <= q
+//@   assert [digit] fmod(fdiv(q, pow2(2 * m)), 4) == qbit(q, 2 * m) + 2 * qbit(q, 2 * m + 1)
+//@   assert [bits] 0 <= qbit(q, 2 * m) && qbit(q, 2 * m) <= 1 && 0 <= qbit(q, 2 * m + 1) && qbit(q, 2 * m + 1) <= 1
+//@ end
+//@ lemma C11_high_bits_are_zero
+//@   props C11
+//@   reveal qbit
+//@   var q int
+//@   var k int
+//@   split k 0..62
+//@   assume 0 <= q
+//@   assert [zero] q < pow2(k) ==> qbit(q, k) == 0
+//@ end
 //@ case convertQuadkeyToHorizontalID in-range
 //@   props C11
+//@   apply C11_base4_digit_is_two_bits(quadkey)
+//@   apply C11_high_bits_are_zero(quadkey)
 //@   split zoom 1..31
 //@   split $ndigits 1..zoom
 //@   split $idx -1..$ndigits-1
-//@   quickstride 16
+//@   quickstride 4
 //@   requires 0 <= quadkey && quadkey < pow2(2 * zoom)
 //@   loop 0 invariant $i <= $ndigits && $i <= zoom && x == qbits(quadkey, 2 * ($ndigits - $i), zoom) && y == qbits(quadkey, 2 * ($ndigits - $i) + 1, zoom)
 //@   ensures [deinterleave] r0 == qbits(quadkey, 0, zoom) && r1 == qbits(quadkey, 1, zoom)
@@ -232,6 +256,7 @@ package transform
 //@ -- one-to-one correspondence: the two walks are mutually inverse (arithmetic lemma, per zoom)
 //@ lemma C11_quadkey_bijection
 //@   props C11
+//@   reveal qbit
 //@   tier thorough
 //@   var z int
 //@   var x int
